@@ -82,6 +82,8 @@ type GenOpts struct {
 	ByzHeights bool
 	// HighCounters: batch nonces / sequences start high (255, 256, 65535 ... are reached within a history)
 	HighCounters bool
+	// MaybeNoPrices: now and then the oracle holds no prices
+	MaybeNoPrices bool
 }
 
 var ethIds = []string{
@@ -159,6 +161,9 @@ func GenConfig(t *rapid.T, o GenOpts) sim.Config {
 	}
 	// a short signed-signer-set window lets BeginBlocker prune observed signer sets within a history
 	cfg.SignerSetWindow = rapid.SampledFrom([]uint64{1, 3, 10000, 10000}).Draw(t, "sswindow")
+	if o.MaybeNoPrices && rapid.IntRange(0, 7).Draw(t, "noprices") == 0 {
+		cfg.NoPrices = true // the oracle has not agreed on any price yet: fee payouts of executed batches cannot be computed
+	}
 	if o.HighCounters {
 		// a chain that has been running: batch nonces and sequence numbers around byte and word boundaries
 		cfg.StartBatchNonce = rapid.SampledFrom([]uint64{0, 0, 0, 253, 254, 255, 65533, 65534, 4294967294}).Draw(t, "startbatch")
